@@ -2,7 +2,7 @@
    Statements only; proofs live in C03/Proofs.v and C03/Table.v.  Model: C03/Model.v (access scripts
    transcribing psutil/_pslinux.py and psutil/__init__.py), fault model and allowed outcomes:
    C03/Spec.v, guard analysis: C03/Guard.v, the harness's concrete worlds: C03/Run.v. *)
-From PV Require Import Base.Prelude C03.Model C03.Spec C03.Guard C03.Proofs C03.Run C03.Table C03.Native C03.NativeProofs C03.History.
+From PV Require Import Base.Prelude C03.Model C03.Spec C03.Guard C03.Proofs C03.Run C03.Table C03.Native C03.NativeProofs C03.History C03.Access.
 
 (* soundness of the guard for ALL worlds of the fault model: any base answers respecting [opt], any vanish index of
    the process -- whole directory or half-removed (only the entries below /proc/<pid> go, issue 2418) --, any
@@ -104,6 +104,24 @@ Theorem C03_gone_is_running_then_nsp : forall w p, In p guarded_calls -> forall 
   map fst (run_hist w [h_is_running; p] s) = [RVal; RExc (XNSP Self)].
 Proof. exact gone_is_running_then_nsp. Qed.
 Print Assumptions C03_gone_is_running_then_nsp.
+
+(* ---- terminal(): the device nodes outside procfs.  A script can only make the accesses written in it ... *)
+Theorem C03_script_accesses : forall w p cx s sg s', exec w p cx s = (sg, s') ->
+  grows (fun f => In f (files_of p)) s s'.
+Proof. exact exec_files. Qed.
+Print Assumptions C03_script_accesses.
+(* ... so terminal() with a memoised (possibly stale) terminal map touches /proc/<pid>/stat and nothing else: no
+   /dev/pts/<N> probe that could fail while the exiting process is still readable ... *)
+Theorem C03_terminal_only_stat : forall w s, grows (fun f => f = FStat) s (snd (run w i_terminal_warm s)).
+Proof. exact terminal_warm_only_stat. Qed.
+Print Assumptions C03_terminal_only_stat.
+(* ... and under ANY fault of the model -- vanish (both modes), refusals anywhere incl. the /dev nodes, a tty node
+   unlinked under the scan (ENOENT) -- terminal(), cold or memoised map, hit or miss, ends in a value,
+   NoSuchProcess (gone), ZombieProcess or AccessDenied; as_dict / oneshot / process_iter over it: theorems 3 and 4 *)
+Theorem C03_terminal_sound : forall w, base_ok opt_half w -> forall p, In p [ i_terminal; i_terminal_warm ] ->
+  forall s, s_cache s = false -> allowed (fst (run w p s)) (gone w (snd (run w p s))).
+Proof. exact terminal_sound. Qed.
+Print Assumptions C03_terminal_sound.
 
 (* ---- the native part behind nice(): psutil_posix_getpriority with errno explicit (C03/Native.v).  For every kernel
         answer and EVERY errno left by earlier, unrelated calls of the thread the query answers what the target alone
